@@ -101,7 +101,7 @@ var commonReal = []string{"the whole gohessian package (instrumented scratch cop
 var meta = map[string]*propMeta{
 	"C15": {
 		Level: "fault_enumeration", QuickRuns: 2400, ThoroughRuns: 80000,
-		Rule: "one run = a seeded stream of 1..4 zoo values x one of 4 documented encode entry points; for it EVERY index k of the k-th Write x 8 fault kinds {err once, err from k on, short count + ErrShortWrite, short count + nil, short by exactly one byte + nil, io.EOF once, a temporary error once, a wrapper error without a cause once} is injected on a fresh instance (exhaustive per run). evaluations = fault injections performed. A run is non-trivial when at least one injected fault actually fired; distinct = distinct fingerprints (entry point, write count, hash of the fault-free bytes) among those runs.",
+		Rule: "one run = a seeded stream of 1..4 zoo values x one of 4 documented encode entry points; for it EVERY index k of the k-th Write x 9 fault kinds {err once, err from k on, short count + ErrShortWrite, short count + nil, short by exactly one byte + nil, io.EOF once, a temporary error once, a wrapper error without a cause once, a full count together with an error} is injected on a fresh instance (exhaustive per run). evaluations = fault injections performed. A run is non-trivial when at least one injected fault actually fired; distinct = distinct fingerprints (entry point, write count, hash of the fault-free bytes) among those runs.",
 		Assumptions: []string{"values are drawn from the harness zoo (see sim/zoo.go); runs whose fault-free control returns an error are skipped and counted, not reported",
 			"a short count on a zero-length write is impossible and is not injected"},
 		Real: commonReal, Simulated: []string{"destination io.Writer (fault-injecting)", "map iteration order inside writeMap (seeded)", "logger (no-op)"},
@@ -126,7 +126,7 @@ var meta = map[string]*propMeta{
 	},
 	"C11": {
 		Level: "exploration", QuickRuns: 24000, ThoroughRuns: 600000,
-		Rule: "one run = one instance (Serializer or Encoder+Decoder over private copies of the complete maps) driven through a seeded history of 0..30 calls {encode, encode of an unrepresentable value, WriteTo aborted half-way by a writer fault at a drawn Write index and kind, decode, decode of a cut/reset/damaged stream (possibly panicking; harness recovers), streaming writes / reads, Reset}, each with a different drawn value; then a probe {Encode/ToBytes, WriteTo, Decode/ToObject, ReadFrom} on the used instance and on a fresh one: bytes, canonical value (incl. dynamic types and pointer identity) and masked error must be identical. Around every call the value passed in, the bytes passed in and both maps are snapshotted and compared; results of earlier calls are re-compared after every later call. 30% of the runs instead enumerate EVERY abort point (every Write index x 8 kinds / every cut offset) of one value followed by a probe. evaluations = probe comparisons. Non-trivial = history non-empty or enumerating mode; distinct = distinct (history, draws) fingerprints.",
+		Rule: "one run = one instance (Serializer or Encoder+Decoder over private copies of the complete maps) driven through a seeded history of 0..30 calls {encode, encode of an unrepresentable value, WriteTo aborted half-way by a writer fault at a drawn Write index and kind, decode, decode of a cut/reset/damaged stream (possibly panicking; harness recovers), streaming writes / reads, Reset}, each with a different drawn value; then a probe {Encode/ToBytes, WriteTo, Decode/ToObject, ReadFrom} on the used instance and on a fresh one: bytes, canonical value (incl. dynamic types and pointer identity) and masked error must be identical. Around every call the value passed in, the bytes passed in and both maps are snapshotted and compared; results of earlier calls are re-compared after every later call. 30% of the runs instead enumerate EVERY abort point (every Write index x 9 kinds / every cut offset) of one value followed by a probe. evaluations = probe comparisons. Non-trivial = history non-empty or enumerating mode; distinct = distinct (history, draws) fingerprints.",
 		Assumptions: []string{"map iteration order inside writeMap is pinned by the instrumentation seam, so byte equality is meaningful", "error texts are compared with pointer values masked"},
 		Real: append([]string{"bufio.Reader, bytes.Buffer"}, commonReal...), Simulated: []string{"destination io.Writer (fault-injecting)", "source reader (cut / reset / damaged)", "map iteration order (seeded)", "logger (no-op)"},
 		EvalsAre: "probe comparisons (used instance vs fresh instance)",
